@@ -422,6 +422,19 @@ theorem C20_trie_complete_unshadowed (t : Trie) (hv : ∀ e ∈ t, cSlash ∉ e.
       Matches (e'.keys.map Key.mkey) e'.verb (splitOnByte cSlash (trimLeadingSlash p)) :=
   ⟨find_complete t hu m p e he hm (Matches1.of_matches hM hl), fun e' h => find_sound t hv m p e' h⟩
 
+/-- `C20_trie_complete_unshadowed` for a trie filled with templates the strict parser returned (no verb hypothesis
+    left): `Find` = some added template of the method that matches the path. -/
+theorem C20_trie_complete_unshadowed_parsed (t : Trie)
+    (hp : ∀ e ∈ t, ∃ s T, stParse s = .ok T ∧ e.verb = T.verb) (hu : t.unshadowed = true)
+    (m p : Bytes) (e : Entry) (he : e ∈ t) (hm : e.method = m)
+    (hM : Matches (e.keys.map Key.mkey) e.verb (splitOnByte cSlash (trimLeadingSlash p)))
+    (hl : e.keys.length ≤ (splitOnByte cSlash (trimLeadingSlash p)).length) :
+    t.find m p ≠ [] ∧
+    ∀ e' ∈ t.find m p, e' ∈ t ∧ e'.method = m ∧
+      Matches (e'.keys.map Key.mkey) e'.verb (splitOnByte cSlash (trimLeadingSlash p)) :=
+  ⟨find_complete t hu m p e he hm (Matches1.of_matches hM hl),
+   fun e' h => C20_trie_sound_parsed t hp m p e' h⟩
+
 /-- the same with the matching notion in which `**` takes at least one component (`Matches1`), which implies
     `Matches` -/
 theorem C20_trie_complete_unshadowed_matches1 (t : Trie) (hu : t.unshadowed = true)
